@@ -107,4 +107,11 @@ CHECKS = {
                  'constant (4 MiB) covers one-off compressor state'],
  'jobs': [{'pkg': 'c09', 'run': 'TestLimits', 'checks': {'quick': 8000, 'thorough': 320000}, 'shards': {'quick': 8, 'thorough': 16}},
           {'pkg': 'c09', 'run': 'TestAlloc', 'gomaxprocs': 1}]},
+    'C08': {'level': 'exploration',
+ 'assumptions': ['which of {request algorithm, first mutual} a handler picks when the request was compressed is not asserted (both satisfy the statement); '
+                 'whether a payload ≥ min must be compressed is not asserted',
+                 'histories run with GOMAXPROCS=1 and synchronous ServeHTTP so that sync.Pool really hands the same (de)compressor to consecutive calls'],
+ 'jobs': [{'pkg': 'c08', 'run': 'TestHandlerNegotiation', 'checks': {'quick': 12000, 'thorough': 480000}, 'shards': {'quick': 4, 'thorough': 16}},
+          {'pkg': 'c08', 'run': 'TestClientSide', 'checks': {'quick': 12000, 'thorough': 480000}, 'shards': {'quick': 4, 'thorough': 16}},
+          {'pkg': 'c08', 'run': 'TestPoolHistory', 'checks': {'quick': 2400, 'thorough': 96000}, 'shards': {'quick': 8, 'thorough': 16}, 'gomaxprocs': 1}]},
 }
